@@ -127,6 +127,11 @@ func runCase(r *lib.Run, idx int, maxRound, maxSweeps *atomic.Int64) {
 	r.Count("quorum_actions_at_exact_threshold", st.nearQuorum)
 	r.Count("split_exactly_one_below_quorum", st.belowQuorumIdle)
 	r.Count("trigger_sync_actions", st.triggerSync)
+	r.Count("sync_bodies_delivered_to_lagging_validators(decided block as consensus/sync extracts it)", st.syncHonest)
+	r.Count("commits_reached_through_a_sync_body", st.syncCommits)
+	r.Count("sync_bodies_unused(validator holds another proposal of that proposer for the attributed round; liveness, not judged)", st.syncUnusedOtherProposal)
+	r.Count("sync_bodies_unused(other; liveness, not judged)", st.syncUnusedOther)
+	r.Count("sync_triggered_with_a_quorum_of_the_current_but_not_of_the_future_height(observation)", st.syncTriggerBelowFutureQuorum)
 	r.Count("template_T1_deep_variant_hits(one validator decided X before the stale proposal)", st.deepHits)
 	r.Count("stale_height_messages_delivered", st.rejectedByAge)
 	if s.suppressed > 0 {
@@ -257,7 +262,7 @@ func TestC12(t *testing.T) {
 	r.Count("max_suffix_sweeps_needed", int(maxSweeps.Load()))
 	r.Assume("messages are authenticated: a byzantine validator cannot send under a correct validator's address (signatures are checked below the state machine)")
 	r.Assume("random sampling plus guided adversaries, plus - for n=4, one height, equal power - EVERY schedule with at most two deviations (reorder / drop / early timeout / one of 9 byzantine actions, at any step) from the FIFO base schedule, executed on the real state machines; that is a bounded family, not all schedules")
-	r.Assume("ProcessSync / TriggerSync (catch-up through the sync protocol) and WAL replay are not driven")
+	r.Assume("catch-up through the sync protocol is driven at the state-machine boundary: the harness plays the block fetcher (ProcessSync with the block decided for the lagging validator's height, built as consensus/sync.MessageExtractor builds it: proposer's first round, valid round -1, one precommit of the sync sender, which the validator set grants quorum power - the sync path trusts its block source, so hostile bodies are outside the model); the driver's fetch loop and WAL replay are C13's")
 	r.Finish("case = one schedule: n in {4,7,10} real tendermint state machines (starknet types), equal or weighted voting power (totals of every residue mod 3, "+
 		"per-height power changes), byzantine power strictly below a third (often the largest such), scripted proposer table, 1-3 heights, driven like the driver "+
 		"(ProcessStart(0), no loop-back, every ScheduleTimeout a deliverable event) by a seeded adversary: reordering, loss, duplication, arbitrary timeout firing, "+
